@@ -6,6 +6,7 @@ Status: the per-entry and whole-log soundness statements are kept at full streng
 import Gittuf.Spec.C01
 import Gittuf.Props.Witness
 import Gittuf.Proofs.Loop
+import Gittuf.Proofs.Entry
 namespace Gittuf
 namespace World
 
@@ -50,6 +51,37 @@ theorem C01_no_entry (W : World) (v : Variant) (ref : String)
   split
   · rename_i f l hf hl; rw [h] at hl; cases hl
   · exact ⟨_, rfl⟩
+
+/-- **What `verifyEntry`'s acceptance means** (every policy, attestation state, entry, variant): for
+an entry of a branch, the approvals were looked up for exactly the change (reference, previous
+target, tree of the new target) and the Git rule decision is the one of `verifyObject_accept`: the
+reference is unprotected, or a consulted verifier is satisfied — a delegation rule met by at least
+`threshold` distinct principals of its own, injectively credited through valid signatures over this
+entry / this authorization or matched to code-review approvers (`RuleMet`), or, only while F1 is open
+or when no delegation rule matches, the exhaustive verifier. -/
+theorem C01_entry_accept (W : World) (v : Variant) (P : Policy) (A : Option AttState) (i : Nat) (e : LogEntry)
+    (hne : (e.ref == policyRef || e.ref == attestationsRef) = false)
+    (h : W.verifyEntry v P A i e = .ok ()) :
+    ∃ tc ap vs, targetCommit e = some tc ∧
+      approvalsFor v P A e.ref (W.fromId e.ref i) (W.treeOf tc) = .ok ap ∧
+      P.findVerifiers ("git:" ++ e.ref) = some vs ∧
+      (vs = [] ∨ ∃ vn ∈ vs, vn.v.exhaustive = true ∨
+        ∃ acc, RuleMet P.allPrincipals ((P.root.apps.filter (·.trusted)).map (·.name)) ap.approvers vn
+          (sigOf e.signer) ap.auth acc) := by
+  unfold verifyEntry at h
+  simp only [hne, Bool.false_eq_true, if_false] at h
+  split at h
+  · cases h
+  · rename_i tc htc
+    simp only [bind, Except.bind] at h
+    split at h
+    · cases h
+    · rename_i ap hap
+      split at h
+      · cases h
+      · rename_i res hres
+        obtain ⟨vs, hvs, hmet⟩ := verifyObject_accept W v P _ _ _ ap res hres
+        exact ⟨tc, ap, vs, htc, hap, hvs, hmet⟩
 
 /-- membership in the verified range: every reference-updater entry for `ref` recorded between the
 first and the last entry of the range is in the queue the loop walks -/
